@@ -1275,3 +1275,76 @@ func SiblingURL(r *Rand, u string) string {
 	}
 	return u[:i+1] + Pick(r, []string{"first-story", "second-story", "other", last + "-b"}) + q
 }
+
+// SweepDoc is a compact page (≈1 KiB) whose head carries every charset
+// declaration convention and a sample of the vocabulary harvested from the
+// library's source; C01 truncates it at every byte offset.
+func SweepDoc(seed uint64) GenDoc {
+	r := Derive(seed, 0x5eeb)
+	var sb strings.Builder
+	sb.WriteString(`<!DOCTYPE html><html lang="en"><head>`)
+	switch r.Intn(3) {
+	case 0:
+		sb.WriteString(`<meta charset="utf-8">`)
+	case 1:
+		sb.WriteString(`<meta http-equiv="Content-Type" content="text/html; charset=utf-8">`)
+	case 2:
+		sb.WriteString(`<meta http-equiv="Content-Type" content="text/html; charset=`)
+		sb.WriteString(Pick(r, []string{"iso-8859-1", "windows-1252", "shift_jis", "bogus"}))
+		sb.WriteString(`">`)
+	}
+	sb.WriteString(`<title>Sweep page title - Site</title>`)
+	for i := 0; i < 6 && len(VocabValues) > 0; i++ {
+		fmt.Fprintf(&sb, `<meta name="%s" content="%s">`, Pick(r, VocabValues), Pick(r, VocabValues))
+	}
+	sb.WriteString(`</head><body><h1>Sweep page</h1><p>`)
+	for i := 0; i < 40; i++ {
+		fmt.Fprintf(&sb, "sw%d ", i)
+		if i%9 == 4 && len(VocabValues) > 0 {
+			sb.WriteString(Pick(r, VocabValues))
+			sb.WriteByte(' ')
+		}
+	}
+	sb.WriteString(`</p><a href="/p/2">2</a> <img src="a.png" alt="x"></body></html>`)
+	return GenDoc{Bytes: []byte(sb.String()), URL: "http://example.com/p/1", Origin: fmt.Sprintf("sweep:%x", seed), Features: []string{"sweepdoc"}, UTF8: true}
+}
+
+// CoveringCorpus returns a deterministic set of generated pages in which every
+// feature the generator knows appears at least once: seeds are scanned in
+// order and a page is kept when it contributes a feature not seen before.
+var coveringCache []GenDoc
+
+func CoveringCorpus(maxDocs int) []GenDoc {
+	if coveringCache == nil {
+		coveringCache = coveringCorpus(200)
+	}
+	if len(coveringCache) > maxDocs {
+		return coveringCache[:maxDocs]
+	}
+	return coveringCache
+}
+
+func coveringCorpus(maxDocs int) []GenDoc {
+	seen := map[string]bool{}
+	var out []GenDoc
+	idle := 0
+	for seed := uint64(1); len(out) < maxDocs && idle < 60 && seed < 400; seed++ {
+		d := Document(0xC0DE0000 + seed*104729)
+		fresh := false
+		for _, f := range d.Features {
+			if !seen[f] {
+				fresh = true
+			}
+		}
+		if !fresh || len(d.Bytes) > 60000 {
+			idle++
+			continue
+		}
+		idle = 0
+		for _, f := range d.Features {
+			seen[f] = true
+		}
+		out = append(out, d)
+	}
+	return out
+}
